@@ -52,7 +52,7 @@ def check_C16(tier, seed):
         cli = c15.build_cli()
         bs = c15.build_bscript()
         ng = 24 if tier == "quick" else 160
-        profs = ["types", "memo", "fields", "leftrec", "keywords", "unicode"]
+        profs = ["types", "memo", "fields", "leftrec", "keywords", "unicode", "include", "mix"]
         derive_sets = [("-", []), ("Debug,Clone,PartialEq,Eq", ["Debug", "Clone", "PartialEq", "Eq"])]
         prefixes = ["", "use std::fmt;\n// p"]
         grammars = []
@@ -80,6 +80,13 @@ def check_C16(tier, seed):
             with open(gp, "w", encoding="utf-8", newline="") as f:
                 f.write(text)
             grammars.append((g, text, gp))
+            # rule-permuted twin (same names at other positions): compiled right before the real grammar on the
+            # same-process library route, so that anything a compile leaves behind meets a grammar it does not fit
+            import copy
+            tw = copy.copy(g)
+            tw.rules = [g.rules[0]] + list(reversed(g.rules[1:]))
+            with open(os.path.join(wd, "tw%d.ebnf" % i), "w", encoding="utf-8", newline="") as f:
+                f.write(grender.render(tw, None))
         tuples = 0
         nontriv = 0
         executions = 0
@@ -95,9 +102,10 @@ def check_C16(tier, seed):
             jobs = []
             for i, (gg, _, gp) in enumerate(grammars):
                 for rep in range(3):
-                    jobs.append(("g%dr%d" % (i, rep), gp, os.path.join(wd, "rep_%d_%d_%d.rs" % (di, rep, i)), dspec, "vfrt::Ctx" if gg.user_ctx else "-"))
+                    jobs.append(("g%dr%d" % (i, rep), gp, os.path.join(wd, "rep_%d_%d_%d.rs" % (di, rep, i)), dspec, "vfrt::Ctx" if gg.user_ctx else "-",
+                                 os.path.join(wd, "tw%d.ebnf" % i) if rep == 0 else "-"))
             r = build.run_cgdrv("gen", jobs, wd, nproc=1)
-            for (jid, gp, op, _, _) in jobs:
+            for (jid, gp, op, _, _, _) in jobs:
                 i = int(jid[1:jid.index("r")])
                 outs[i].append(("library/same-process", open(op, encoding="utf-8").read() if r[jid][0] == "ok" else None))
                 executions += 1
